@@ -225,7 +225,7 @@ def run(tier, seed):
                 rep.check(rid, M.match(("bin", "sub", ("load", ("field", "BitStreamReader", "bits", ("param", 0))), ("param", 1)), st.ops[0], {}) is not None, "read_bits: bits -= n", st.where(), None,
                           function="read_bits", obj="dec")
                 gs(rep, rid, ctx, st, [("peek_bits(reader, n) >= 0", ("sge", ("call", "peek_bits", [("param", 0), ("param", 1)]), 0))])
-        rid = rep.rule("S-lh1", "support of A-lh1-tree / A-lh1-offset: the -lh1- tables are written only by the listed maintenance functions", 2)
+        rid = rep.rule("S-lh1", "support of A-lh1-tree / A-lh1-offset: the -lh1- tables are written only inside lh1_decoder.c, the offset tables only during initialisation", 2)
         lw = collections.Counter()
         for fld in ("nodes", "leaf_nodes", "groups", "group_leader"):
             for f in plain.defined():
@@ -248,8 +248,9 @@ def run(tier, seed):
                                 lw[f.cname] += 1
                                 break
                             x = d.ops[0]
-        allowed = {"init_tree", "init_groups", "alloc_group", "free_group", "make_group_leader", "increment_node_freq", "increment_for_code", "reconstruct_tree"}
-        rep.check(rid, set(lw) <= allowed and len(lw) >= 4, "writers of the -lh1- tree tables", "lh1_decoder.c", "%s" % dict(lw), function="lh1", obj="tree-writers")
+        # the decoder state struct is private to lib/lh1_decoder.c: whoever maintains the tables lives in that file (names are free to change)
+        lh1_fns = {f.cname for f in plain.defined() if f.file.endswith("lh1_decoder.c")}
+        rep.check(rid, set(lw) <= lh1_fns and len(lw) >= 1, "the -lh1- tree tables are written only by functions of lh1_decoder.c", "lh1_decoder.c", "%s" % dict(lw), function="lh1", obj="tree-writers")
         ow = collections.Counter()
         for fld in ("offset_lookup", "offset_lengths"):
             for f in plain.defined():
@@ -262,8 +263,13 @@ def run(tier, seed):
                             from ..ir import field_of_gep
                             if b is not None and not b.is_param and b.op == "getelementptr" and field_of_gep(plain, b) == ("LHALH1Decoder", fld):
                                 ow[f.cname] += 1
-        rep.check(rid, set(ow) <= {"init_offset_table", "fill_offset_range"} and len(ow) == 2, "writers of the -lh1- offset tables (init only)", "lh1_decoder.c", "%s" % dict(ow), function="lh1",
-                  obj="offset-writers")
+        from ..callgraph import CallGraph as _CG
+        _cg = _CG(plain)
+        rd_entry = plain.fn("lha_lh1_read")
+        from_read = _cg.reachable([rd_entry.name]) if rd_entry else set()
+        late = [w for w in ow if any(f.cname == w and f.name in from_read for f in plain.defined())]
+        rep.check(rid, bool(ow) and set(ow) <= lh1_fns and not late and rd_entry is not None, "the -lh1- offset tables are written only during initialisation (no writer is reachable from lha_lh1_read)",
+                  "lh1_decoder.c", "%s; reachable from the read entry: %s" % (dict(ow), late), function="lh1", obj="offset-writers")
 
         # ---- R4 pm1 table walk -------------------------------------------------------------------------------
         rid = rep.rule("R4", "pm1 byte_decode_trees: every bit path from each of the 32 roots stays inside its 5-byte row and ends in a leaf nibble", 32)
